@@ -38,8 +38,10 @@ TEXT['C11'] = dict(
          'interpolant S at v_i inside [vMin,vMax]; outside it is f_eq(r, v_i), 0, or S at the periodic image (recursive orbit '
          'definition), with termination of both wrap loops by real-valued variants. The evaluator is a function parameter with '
          'an abstract contract that both real evaluators are registered to implement.',
-    note=PROOF_NOTE + 'Not yet under contract in this check: VParallelAdvection.step (foot = v - c*dt, edge-mode mapping) and the '
-         'grid-level speed lookup; they are listed as uncovered in the evidence until their contracts discharge.',
+    note=PROOF_NOTE + 'Class level: VParallelAdvection.step (foot = v_i - c*dt, interpolant of the old nodal values, boundary rule by '
+         'edge code) is verified per edge code against the kernel contract; VParallelAdvection.__init__ is verified to establish the '
+         'state step starts from (nodes = eta_vals[3], interpolator and spline on the given space, the constants object, '
+         'fEq/null/periodic -> edge code 0/1/2, any other string refused). The grid-level speed lookup is C05.',
     technique='loop invariants, recursive spec function for the periodic image, modular function-parameter contracts, z3')
 TEXT['C10'] = dict(
     category='proof',
